@@ -313,7 +313,12 @@ func c06AllowedReject(a BExpr) (BExpr, string) {
 			return bNot{a}, "metadata line without ': '"
 		case strings.Contains(x.A, ").entryAt(") && strings.HasSuffix(x.A, "#3"):
 			return bNot{a}, "entryAt !ok"
-		case strings.HasPrefix(x.A, "visited("):
+		case strings.HasPrefix(x.A, "visited(conv<string>(") && strings.Contains(x.A, ").entryAt(") && strings.HasSuffix(x.A, "#0))"):
+			// keyed by the RAW record name: two distinct raw names may decode to one name
+			// (DecodeStack is not injective), and such a file is well formed
+			return a, "duplicate/cyclic record (visited set hit)"
+		case strings.HasPrefix(x.A, "visited(phi:") && !strings.Contains(x.A, "("+"internal"):
+			// keyed by the record offset being walked
 			return a, "duplicate/cyclic record (visited set hit)"
 		}
 	}
